@@ -40,11 +40,22 @@ NAME_CLASSES = {
         "a": " a", "b": "b c", "c": "c", "d": "d ", "e": "e  ", "f": "f ", "g": "g",
         "n1": " n1", "n2": "n2 ", "n3": " n3 ", "n4": "n4", "n5": "n5 ", "n6": " n6",
     },
+    # user-given internal names that look like the names TreeBuilder generates for unnamed nodes
+    "edgelike": {"n1": "edge.0", "n2": "edge.0.1", "n3": "edge.1", "n4": "edge", "n5": "edge.0.2", "n6": "edge.2"},
+    # internal names left to the newick parser (the tree is parsed from the text without internal labels)
+    "auto": {},
 }
+# classes in which an operation may rename internal nodes (names that clash with generated ones):
+# spec names are then resolved by POSITION in a plain-named twin tree that went through the same calls
+TWIN_CLASSES = {"edgelike", "auto"}
 HAS_BLANK = {"soft", "blank"}  # classes for which reading with underscore_unmunge=False is documented to differ
 # name classes exercised on the name-writing/reading calls only (the other calls never look at the text of a name)
 RT_ONLY_CLASSES = {"blank"}
 RT_ACTS = {"Make", "NewickRT", "NewickNamesRT", "NewickDefaultRT", "DndRT", "JsonRT", "RichDictRT"}
+# the twin classes run on the name-writing calls and on the calls that create or look up internal nodes by name
+TWIN_ACTS = RT_ACTS | {"RootAtMidpoint", "RootedAt", "Unrooted", "SubTree"}
+# round trips that carry internal node names: every name must come back on the same node
+NAME_KEEPING = {"NewickNamesRT", "JsonRT", "RichDictRT", "Copy", "DeepCopy", "CopyModule"}
 
 
 class Ctx:
@@ -54,6 +65,11 @@ class Ctx:
         self.fwd = {n: m.get(n, n) for n in TIPS + INTS}
         self.inv = {v: k for k, v in self.fwd.items()}
         self.tree = None
+        self.twin = None
+
+    def advance(self, act, res):
+        if act not in OBSERVE_ONLY:
+            self.tree = res
 
     def name(self, n):
         if n == NEW:
@@ -62,6 +78,35 @@ class Ctx:
                 if node.children and node.name not in self.inv:
                     return node.name
         return self.fwd.get(n, n)
+
+
+class TwinCtx(Ctx):
+    """Name class whose internal names may be changed by an operation: a plain-named twin tree takes
+    the same calls, and a spec name is resolved to the node at the same position (both trees are
+    built by the same code, so shape and child order agree)."""
+
+    def __init__(self, variant):
+        super().__init__(variant)
+        self.twin = Ctx("plain")
+
+    def name(self, n):
+        if n in TIPS:
+            return self.fwd.get(n, n)
+        tname = "root" if n == ROOT else self.twin.name(n)
+        for a, b in zip(self.twin.tree.traverse(), self.tree.traverse()):
+            if (a is self.twin.tree and n == ROOT) or (a is not self.twin.tree and a.name == tname):
+                return b.name
+        raise KeyError(n)
+
+    def advance(self, act, res):
+        """make `res` (the result of `act` on self.tree) the current tree; same for the twin."""
+        if act not in OBSERVE_ONLY:
+            self.tree = res
+            self.twin.tree = self._twin_res
+
+
+def new_ctx(variant):
+    return TwinCtx(variant) if variant in TWIN_CLASSES else Ctx(variant)
 
 
 class Unsupported(Exception):
@@ -140,6 +185,7 @@ def obs(ctx, tree):
         "splits": sorted(splits),
         "dist": dist,
         "rootparts": rootparts,
+        "nnodes": sum(1 for _ in tree.traverse(include_self=False)),
     }
 
 
@@ -150,11 +196,12 @@ def canon_obs(o):
         "splits": sorted(tuple(sorted(tuple(sorted(side)) for side in sp)) for sp in o["splits"]),
         "dist": {f"{a}|{b}": d for a, b, d in o["dist"]},
         "rootparts": sorted(tuple(sorted(p)) for p in o["rootparts"]),
+        "nnodes": o["nnodes"],
     }
 
 
 def obs_diff(real, exp):
-    return sorted(k for k in ("tips", "splits", "dist", "rootparts") if _j(real[k]) != _j(exp[k]))
+    return sorted(k for k in ("tips", "splits", "dist", "rootparts", "nnodes") if _j(real[k]) != _j(exp[k]))
 
 
 def _j(v):
@@ -171,13 +218,20 @@ def snapshot(ctx, tree):
 
 
 # ----------------------------------------------------------------- driving
-def make(ctx, newick):
+def make(ctx, newick, unlabelled=None):
     from cogent3 import make_tree
 
-    t = make_tree(newick)
-    if ctx.variant != "plain":
+    if ctx.twin is not None:
+        ctx.twin.tree = make_tree(newick)
+    t = make_tree(unlabelled if ctx.variant == "auto" else newick)
+    if ctx.variant not in ("plain", "auto"):
         t.reassign_names(dict(ctx.fwd))
     return t
+
+
+def namemap(tree):
+    """real name of every non-root node -> (tips below it, its length)"""
+    return {repr(n.name): [sorted(_below(n)), _len2(n)] for n in tree.traverse(include_self=False)}
 
 
 IN_PLACE = {"Prune"}
@@ -192,6 +246,14 @@ def call(ctx, act, args):
     from cogent3 import make_tree
     from cogent3.util.deserialise import deserialise_object
 
+    if ctx.twin is not None and not getattr(ctx, "_in_twin", False):
+        ctx._in_twin = True
+        try:
+            res = call(ctx, act, args)           # names are resolved against the twin as it is now
+        finally:
+            ctx._in_twin = False
+        ctx._twin_res = call(ctx.twin, act, args)
+        return res
     t = ctx.tree
     if act == "NewickRT":
         return make_tree(t.get_newick(with_distances=True), underscore_unmunge=True)
